@@ -114,7 +114,9 @@ class Recorder:
             if r.random() < 0.5:
                 n[sorted(n)[0]].v.append(r.randrange(100))
             return n
-        n = dict(c)          # freshShallow: new container, same member objects
+        import collections
+        # freshShallow: new container (a plain dict or a dict subclass), same member objects
+        n = dict(c) if r.random() < 0.6 else collections.OrderedDict(c)
         if r.random() < 0.5:
             n["s%d" % r.randrange(10 ** 6)] = Box([r.randrange(100)])
         return n
@@ -162,6 +164,9 @@ def build(rec, nrep, ngen, loginit, lrep0, via_initop, rng):
     from pybrops.breed.op.log.Logbook import Logbook
 
     starts = [{"main": Box([rng.randrange(100) for _ in range(3)]), "aux": Box([i])} for i in range(5)]
+    if rng.random() < 0.3:
+        import collections
+        starts = [collections.OrderedDict(s_) if k_ % 2 == 0 else s_ for k_, s_ in enumerate(starts)]      # containers may be dict subclasses
     if rng.random() < 0.5:
         # the state containers also hold real library objects (what a programme stores): the replicate's working copy must
         # be EQUAL to the stored start, object by object
@@ -211,7 +216,11 @@ def build(rec, nrep, ngen, loginit, lrep0, via_initop, rng):
 
 def one_trace(tid, nrep, ngen, loginit, lrep0, via_initop, rng, script=None):
     rec = Recorder(None, rng, script)
-    prog, lb, starts, tmax = build(rec, nrep, ngen, loginit, lrep0, via_initop, rng)
+    try:
+        prog, lb, starts, tmax = build(rec, nrep, ngen, loginit, lrep0, via_initop, rng)
+    except Exception as e:  # noqa: the programme could not even be constructed from valid arguments
+        return {"tid": tid, "nrep": nrep, "ngen": ngen, "loginit": bool(loginit), "lrep0": lrep0, "tmax": 0, "initfp": [], "startids": [],
+                "startmem": [], "ev": [], "exc": "construction: %s: %s" % (type(e).__name__, e), "via_initop": via_initop, "noconstruct": True}
     sids, smem, sfp = [], [], []
     for c in starts:
         a, b, f = rec.reg.cont(c)
@@ -317,6 +326,7 @@ def run(ctx):
         if t["exc"]:
             ctx.violation("RecurrentSelectionBreedingProgram.evolve:exception", "evolve raised %s" % t["exc"],
                           {k: t[k] for k in ("nrep", "ngen", "loginit")})
+    traces = [t for t in traces if not t.get("noconstruct")]        # (reported above; there is no trace to validate)
     verd = cases.validate(ctx, "BreedingLoop_Trace", "BreedingLoop_Trace.cfg",
                           [dict(t, id=t["tid"]) for t in traces], "BreedingLoop_Trace", chunk=20, procs=12,
                           tag="TRACE")
